@@ -44,7 +44,10 @@ func c02(c *Ctx) {
 	r.Rule("C02.payload-complete", "every byte the application handed to Write / WriteString / ReadFrom / WriteMessage is in the frame: the amount copied into writeBuf is the amount added to w.pos on every path, including reads that return data together with io.EOF (same rule as C01.cursor-siblings)")
 	w.cursorSiblings("C02.payload-complete")
 	r.Rule("C02.buffer-exclusive", "the buffer a frame is built in is not shared with another connection while the frame is being built or written (same rules as C20.owners, C20.put-once, C20.no-use-after)")
-	c.borrow(c20, map[string]string{"C20.owners": "C02.buffer-exclusive", "C20.put-once": "C02.buffer-exclusive", "C20.no-use-after": "C02.buffer-exclusive"})
+	c.borrow(c20, map[string]string{"C20.owners": "C02.buffer-exclusive", "C20.put-once": "C02.buffer-exclusive", "C20.no-use-after": "C02.buffer-exclusive", "C20.implicit-close": "C02.one-message-at-a-time"})
+	r.Rule("C02.one-message-at-a-time", "every way of starting a message (NextWriter, both WriteMessage paths) first ends a writer the application left open, so frames of two messages never interleave and no message is lost (same rule as C20.implicit-close)")
+	r.Rule("C02.prepared-bytes-copied", "the bytes of a prepared frame are copied out of the rendering connection's reused write buffer (same rule as C19.payload-copy)")
+	c.borrow(c19, map[string]string{"C19.payload-copy": "C02.prepared-bytes-copied"})
 	w.deflateTail("C02.rsv1")
 	w.wrapperClose("C02.rsv1")
 	r.Rule("C02.whole-frames", "the stream stays a sequence of whole frames: every transport write happens inside the Conn.mu critical section (no interleaving of two frames) after re-reading the sticky write error inside the lock (no frame is appended after a partially written one) — same rule as C09.protocol / C10.fail-stop")
